@@ -60,6 +60,7 @@ type PoolInfo struct {
 	Site  string // file:line of the first Get/Put caller outside the shim
 	Purge func() // empties the pool
 	Len   func() int
+	Dup   func() bool // the same object is resident more than once
 }
 
 var pools []*PoolInfo
@@ -67,8 +68,8 @@ var pools []*PoolInfo
 // RegisterPool is called by simsync.Pool on first use.
 //
 //go:norace
-func RegisterPool(site string, purge func(), length func() int) *PoolInfo {
-	pi := &PoolInfo{ID: len(pools), Site: site, Purge: purge, Len: length}
+func RegisterPool(site string, purge func(), length func() int, dup func() bool) *PoolInfo {
+	pi := &PoolInfo{ID: len(pools), Site: site, Purge: purge, Len: length, Dup: dup}
 	n := len(pools)
 	if n == cap(pools) {
 		grown := make([]*PoolInfo, n, 2*n+64)
